@@ -90,12 +90,14 @@ class If(Expr):
         if self.elseBranch is None:
             # if there is only a thenBranch, it must evaluate to TealType.none
             require_type(self.thenBranch, TealType.none)
-        else:
-            # both branches must agree; an ElseIf chain is built incrementally, so this is the
-            # first point at which the rest of the chain is known
-            require_type(self.elseBranch, self.thenBranch.type_of())
+            return TealType.none
 
-        return self.thenBranch.type_of()
+        # both branches must agree; an ElseIf chain is built incrementally, so this is the
+        # first point at which the rest of the chain is known (each branch is typed once:
+        # nested conditionals must not multiply the work)
+        thenType = self.thenBranch.type_of()
+        require_type(self.elseBranch, thenType)
+        return thenType
 
     def has_return(self):
         if self.thenBranch is None:
